@@ -49,6 +49,9 @@ axiom("X4_dsize_pos", [nm], Imp(And(hash_available(nm), nm != z3.StringVal("shak
       note="X4: digest_size > 0 for every available hash other than the SHAKE functions (which report 0 and are "
            "handled by the XOF branch of the wrapper)")
 axiom("X4_sha1_size", [], dsize(z3.StringVal("sha1")) == 20, auto=True, note="X4: hashlib.sha1().digest_size == 20")
+axiom("X4_sha1_avail", [], And(hash_available(z3.StringVal("sha1")), hash_available(z3.StringVal("sha256")),
+                               hash_available(z3.StringVal("md5")), hash_available(z3.StringVal("sha512"))), auto=True,
+      note="X4: sha1, sha256, sha512, md5 are in hashlib.algorithms_available")
 axiom("X4_xof_len", [nm, ms, n], Imp(n >= 0, Len(XOF(nm, ms, n)) == n), patterns=[XOF(nm, ms, n)], auto=True,
       note="X4: SHAKE digest(n) has n bytes")
 
@@ -223,7 +226,7 @@ contract(PRF + ".__call__", params=dict(self=PRFT, key=TBytes, message=TBytes), 
                                          "(self.message_length != -1 and len(message) != self.message_length)", iff=True)},
          ensures=["result == prf(self.hash_func_name, self.output_length, key, message)",
                   "len(result) == self.output_length"],
-         props=["C16", "C01", "C04"])
+         reveal=["prf"], props=["C16", "C01", "C04"])
 
 # ---- variable-length hash wrapper ------------------------------------------------------------------------
 HW = "toolkit/hash.py:HashlibHashVariableOutputLengthWrapper"
